@@ -9,6 +9,7 @@ CONSTANTS
   ChunkPts = {2}
   ResetChoices <- RepairedOnly
   TamperTags <- AllTags
+  CacheChoices = {"none"}
   Concurrent = FALSE
   RecordHist = TRUE
 INVARIANT Emit
